@@ -50,7 +50,7 @@ theorem C06_cer_unknown_peer (s : St) (cid : Nat) (m : AMsg) (info : MsgInfo) (h
       (let ans := { generateAnswer s m info none with cea := ceaSummary s, rc := some 3010 }
        let s1 := s.modConn cid fun c => { c with state := .closing }
        let r := sendMessage s1 cid ans true
-       if r.2 then .ok r.1 else .error .typeError) := by
+       (r.1, if r.2 then none else some Exn.typeError)) := by
   simp [receiveCer, ho, hp]
 
 /-- The timeout clause of the repaired `_check_timers`: a connected inbound
